@@ -133,6 +133,16 @@ def def_sol(formula, display=True, log=False, params={}):
             return Solution('Scipy', np.nan, None, status, stime)
 
 
+def check_curvature(obj, sign):
+    """
+    Raise an error if a concave objective function is minimized (sign=1),
+    or a convex one is maximized (sign=-1).
+    """
+
+    if isinstance(obj, (Convex, PiecewiseConvex)) and obj.sign * sign == -1:
+        raise ValueError('Nonconvex objective function.')
+
+
 def concat(iters, axis=0):
     """
     Join a sequence of arrays of affine expressions along an existing axis.
@@ -449,6 +459,7 @@ class Model:
             else:
                 if obj.size > 1:
                     raise ValueError('Incorrect function dimension.')
+        check_curvature(obj, 1)
 
         self.obj = obj
         self.sign = 1
@@ -480,6 +491,7 @@ class Model:
             else:
                 if obj.size > 1:
                     raise ValueError('Incorrect function dimension.')
+        check_curvature(obj, -1)
 
         self.obj = obj
         self.sign = - 1
